@@ -127,6 +127,10 @@ def render_btoks(toks):
             x = '`include "%s"' % t["n"]
         elif k == "cmt":
             x = t["n"]
+        elif k == "undef":
+            x = "`undef " + t["n"]
+        elif k == "undefall":
+            x = "`undefineall"
         else:
             raise ValueError(k)
         if not prev_glue:
